@@ -242,6 +242,9 @@ def mk_rates(salt, tag, producer, inj_type, phases, zero=False):
         else:
             inj = {IT_WATER: "wat", IT_GAS: "gas", IT_OIL: "oil"}.get(inj_type)
             r[key] = logu(salt, -6, -1, tag, key) if key == inj else 0.0
+    if not zero and producer and r and all(v == 0.0 for v in r.values()):
+        k0 = "oil" if "oil" in r else sorted(r)[0]
+        r[k0] = -logu(salt, -6, -1, tag, k0, "nz")         # something flows
     return r
 
 
@@ -411,13 +414,41 @@ class C05(Check):
     ID = "C05"
     PROBE_GROUP = "restart"
     PROBE_ENV = {"OMP_NUM_THREADS": "1"}
-    RULE = ""
-    ASSUMPTIONS = []
-    EXAMPLES = {"quick": 40, "thorough": 800}
-    MIN_EVALS = {"quick": 300, "thorough": 6000}
+    RULE = ("Curated models (grid 2..5 x 2..5 x 2..4 with inactive cells in well-free columns; OWG, and in half A also OW / OG; METRIC, "
+            "FIELD, LAB, PVT-M; FMTOUT x UNIFOUT x write_double; restart written by RestartIO::save or EclipseIO::writeTimeStep, loaded by "
+            "RestartIO::load or EclipseIO::loadRestart) with 2..4 schedule blocks over WELSPECS COMPDAT WCONPROD WCONINJE WCONHIST WCONINJH "
+            "WELOPEN WELTARG WEFAC GEFAC GRUPTREE GCONPROD GCONINJE WGRUPCON WLIST WTEST WECON WELSEGS/COMPSEGS WSEGVALV BRANPROP/NODEPROP UDQ "
+            "(ASSIGN/DEFINE/UNITS, UDQ-valued well and group limits) ACTIONX and the misc set; restart step n anywhere in the run; restart "
+            "deck = full deck + RESTART + SKIPREST, or the deck cut at the restart step.  The run is driven like a simulator: "
+            "out::Summary::eval and UDQConfig::eval at the end of every report step 1..n with a data::Wells state consistent with the "
+            "schedule state of that step (open wells flow through their open connections, connection transmissibility = schedule CF, "
+            "production negative, active control among the well's constraints), Action::State::add_run.  Half A: solution/extra arrays, "
+            "rates/bhp/thp/control of flowing wells, connection and segment rates/pressures, W/G/F cumulative totals, UDQ values, ACTIONX run "
+            "records must come back (exact for double unformatted identity-unit data, else single precision / 14 digits / 4 ulp of the unit "
+            "round trip).  Half B: the restart-relevant projection (named attributes read through public getters; see NOT_CLAIMED in "
+            "checks/c05.py for what is left out and why) of states n.. of Schedule(deck+RESTART, &rst_state) equals that of the original "
+            "Schedule, REAL-stored items to 2^-23, DOUB-stored to 8 ulp.  Non-trivial: producer and injector present and (non-METRIC or "
+            "formatted or MSW); in half B additionally a well keyword after the restart step.  Distinct by deck text x flavour x salt.")
+    ASSUMPTIONS = ["the simulator state is schedule-consistent (see RULE); nothing is asserted for wells that do not flow, for well "
+                   "temperature, guide rates and filtrate data, for the active control of stopped wells",
+                   "segment phase rates have one sign per segment (RSEG stores a total and two fractions)",
+                   "half B compares limits/targets as evaluated by Well::productionControls/injectionControls and "
+                   "Group::productionControls/injectionControls against one summary state, constraint by constraint; UDQ-valued limits by name",
+                   "shapes that hit a recorded finding (wells without any control keyword, report times off midnight, DRVDT without DRSDT, "
+                   "re-run actions, integer solution arrays, zero rate limits) are generated in about 1 case in 3 only, one at a time",
+                   "half B uses three-phase decks only; GCONSALE is left out of half B",
+                   "aquifers, tracers, polymer/foam wells, LGR, VFP tables, gas lift are not generated"]
+    EXAMPLES = {"quick": 500, "thorough": 7000}
+    MIN_EVALS = {"quick": 3000, "thorough": 40000}
     TIME_CAP = {"quick": 170, "thorough": 1150}
-    LEVEL_TEXT = ""
-    LEVEL_NOTE = ""
+    LEVEL_TEXT = ("Generated-input search with a round-trip oracle (state saved = state loaded, tolerance by storage class and unit "
+                  "system from an independent unit table) and an equivalence oracle between the original and the restarted schedule "
+                  "(named-attribute projection, starting from upstream's Schedule::cmp list and extended to the statement's list); every "
+                  "recorded finding is keyed by root cause and the search continues behind it (all other differences of the same case are "
+                  "still checked).")
+    LEVEL_NOTE = ("Trusted: vlib/refunits.py for unit factors, harness/probe/restart_dump.hpp as the list of public queries, the probe's "
+                  "simulator driver (Summary::eval + UDQ eval every step).  Not reached: aquifer/tracer/LGR/VFP/gas-lift restart data; group "
+                  "UDQs; attributes listed in NOT_CLAIMED.")
     TECHNIQUE = "property-based testing: generated models and simulator states, write/load round-trip oracle + schedule equivalence"
 
     def strategy(self, tier):
@@ -437,7 +468,28 @@ class C05(Check):
         if case["holes"]:
             labels.append(case["half"] + ":inactive-cells")
         nontriv = ("'P" in txt and "'I" in txt) and (case["unit"] != "METRIC" or case["fmt"] or "WELSEGS\n" in txt)
+        if case["half"] == "B":
+            # a keyword after the restart step names a well
+            n = restart_step(case)
+            acc, later = 0, ""
+            for b in case["blocks"]:
+                if acc >= n:
+                    later += "".join(b["kws"])
+                acc += b["nsteps"]
+            modifies = bool(re.search(r"'[PI]\d'", later))
+            labels.append("B:later-keyword-names-a-well" if modifies else "B:no-later-well-keyword")
+            nontriv = nontriv and modifies
+        if case.get("quirk"):
+            labels.append(case["half"] + ":quirk:" + case["quirk"])
         return nontriv, sha([case["half"], case["unit"], case["fmt"], case["unif"], case["double"], txt, case["n"], case["salt"]], 16), labels
+
+    def floors(self, tier):
+        # vacuity guards: every flavour of the statement's quantifier must actually occur
+        return {"A:unit:FIELD": 0.03, "A:unit:LAB": 0.03, "A:unit:PVT-M": 0.03, "A:fmt": 0.05, "A:unif": 0.05, "A:double": 0.05,
+                "A:has:MSW": 0.05, "A:has:UDQ": 0.02, "A:has:ACTIONX": 0.02, "A:compared:flowing-producer": 0.03,
+                "A:compared:flowing-injector": 0.03, "A:compared:segments": 0.05, "B:unit:FIELD": 0.03, "B:fmt": 0.05,
+                "B:has:MSW": 0.05, "B:has:UDQ": 0.02, "B:has:ACTIONX": 0.02, "B:later-keyword-names-a-well": 0.1,
+                "B:compared:states": 0.2}
 
     def sample_view(self, case):
         v = {k: case[k] for k in ("half", "unit", "phases", "fmt", "unif", "double", "n", "flavour", "via", "dims", "holes")}
@@ -788,11 +840,16 @@ class C05(Check):
         seen = set()
         for j, a, b in zip(steps, r["base"], r["rst"]):
             a, b = norm_state(a), norm_state(b)
+            ctx.label("B:compared:states")
+            ctx.label("B:compared:wells", len(a["wells"]))
+            ctx.label("B:compared:groups", len(a["groups"]))
             for path, x, y in diff_states(a, b, case):
                 attr = attr_of(path)
                 ctx.label("B:diff:" + attr) if os.environ.get("C05_HISTO") else None
                 if attr in NOT_CLAIMED or attr.split(".")[0] in NOT_CLAIMED:
                     continue
+                if x == "<no control keyword yet>":
+                    continue            # the original well has no control keyword: nothing to be equivalent to
                 if attr in seen:
                     continue
                 seen.add(attr)
@@ -812,7 +869,7 @@ def attr_of(path):
     """wells/P1/conn/2/CF -> well.conn.CF ; groups/G1/inj/WATER/cmode -> group.inj.cmode"""
     p = path.strip("/").split("/")
     if p[0] == "wells" and len(p) > 1:
-        rest = [q for q in p[2:] if not q.isdigit()]
+        rest = [q for q in p[2:] if not q.isdigit() and not re.match(r"^\d+,\d+,\d+$", q)]
         return ".".join(["well"] + rest) if rest else "well"
     if p[0] == "groups" and len(p) > 1:
         rest = [q for q in p[2:] if not q.isdigit() and q not in ("WATER", "GAS", "OIL")]
@@ -886,6 +943,9 @@ def misassigned_uda_wells(a, b):
 def key_B(attr, x, y, case, state=None, path="", other=None):
     if attr.startswith("well") and state is not None and other is not None:
         parts = path.strip("/").split("/")
+        if len(parts) > 1 and "WHISTCTL\n" in "".join("".join(b0["kws"]) for b0 in case["blocks"]) and \
+                state["wells"].get(parts[1], {}).get("producer") is False and other["wells"].get(parts[1], {}).get("producer") is True:
+            return "B:whistctl-turns-injectors-into-producers"
         if len(parts) > 1 and parts[1] in misassigned_uda_wells(state, other):
             return "B:uda-applied-to-wrong-well"
     """stable finding key: the attribute, except where one root cause shows under several attributes"""
@@ -904,6 +964,12 @@ def key_B(attr, x, y, case, state=None, path="", other=None):
         k = names.get(int(parts[-1]))
         if k and isinstance(c.get(k), str) and HEXRE.match(c[k]) and hexf(c[k]) == 0.0:
             return "B:well.zero-rate-limit-dropped"
+    if lim and state is not None and other is not None:
+        wname = path.strip("/").split("/")[1]
+        side = lim.group(1) + "_udq"
+        k = UDA_OF_LIMIT[lim.group(2)]
+        if k in other["wells"].get(wname, {}).get(side, {}) and k not in state["wells"].get(wname, {}).get(side, {}):
+            return "B:well.uda-stale-after-redefinition"
     if lim and state is not None:
         # the limit holds a UDQ name (on the original side) and yet the two sides evaluate differently: one side uses the
         # number a later WELTARG put into the same UDA
@@ -928,6 +994,12 @@ def key_B(attr, x, y, case, state=None, path="", other=None):
         return "B:group.inj.cmode"
     if re.match(r"well\.(prod|inj)_udq\.", attr) and x == "<absent>":
         return "B:well.uda-stale-after-redefinition"
+    mg = re.match(r"group\.prod(Controls)?\.(oil|water|gas|liquid)_target$", attr)
+    if mg and state is not None:
+        gname = path.strip("/").split("/")[1]
+        tgt = state["groups"].get(gname, {}).get("prod", {}).get(mg.group(2) + "_target")
+        if tgt not in (None, "<numeric>") and other["groups"].get(gname, {}).get("prod", {}).get(mg.group(2) + "_target") == "<numeric>":
+            return "B:group.uda-lost"
     if attr.startswith("wlists"):
         return "B:wlists"
     if attr == "well.seg.inlets.len":
@@ -997,6 +1069,10 @@ def norm_state(s):
                     if not q["controls"] & bit:
                         c[k] = "<inactive>"
     for w in s["wells"].values():
+        # connections are compared cell by cell; their order is an attribute of its own
+        w["conn_order"] = ["%d,%d,%d" % (c["I"], c["J"], c["K"]) for c in w["conn"]]
+        w["conn"] = {"%d,%d,%d" % (c["I"], c["J"], c["K"]): c for c in w["conn"]}
+    for w in s["wells"].values():
         producer = w["producer"]
         for side in ("prod", "inj"):
             raw = w.pop(side, None)
@@ -1015,6 +1091,14 @@ def norm_state(s):
         for ck, undef in (("prodControls", P_UNDEF), ("injControls", I_UNDEF)):
             if ck in w and w[ck].get("cmode") == undef:
                 w[ck] = "<no control keyword yet>"
+        c = w.get("prodControls")
+        if isinstance(c, dict) and c.get("has") and not c["has"][6]:
+            # no WCONPROD/WCONHIST yet (they always add the BHP constraint): what the well has comes from WELTARG or from
+            # NODEPROP's auto-choke option alone
+            w["prodControls"] = "<no control keyword yet>"
+        c = w.get("injControls")
+        if isinstance(c, dict) and c.get("has") and not c["has"][2]:
+            w["injControls"] = "<no control keyword yet>"
         for ck, gi in (("prodControls", 8), ("injControls", 4)):
             c = w.get(ck)
             if isinstance(c, dict) and "has" in c:
